@@ -76,6 +76,12 @@ Definition EndOK (c : circuit) (l : layout) (w : wconn) (e : nend) : Prop :=
        exists p, e_pin e = Some p /\ s_for s = Some (p_el p) /\ PinOfWire w p /\
                  forall w', In w' (c_wires c) -> PinOfWire w' p -> w' = w).
 
+(* ------------------------------------------------------------------ where the lines really end *)
+(* a net end on an instance / port symbol is drawn at a point where that symbol draws the pin the end names *)
+Definition GeoEnd (l : layout) (e : nend) (pt : option (Z * Z)) : Prop :=
+  forall s, In s (l_syms l) -> s_id s = e_sym e -> virtual (s_kind s) = false ->
+    exists p x y, e_pin e = Some p /\ In (PinAt (e_sym e) p x y) (l_pins l) /\ pt = Some (x, y).
+
 (* ------------------------------------------------------------------ the property *)
 Record SchemOK (c : circuit) (l : layout) : Prop := {
   ok_circ  : CircWF c;
@@ -99,5 +105,12 @@ Record SchemOK (c : circuit) (l : layout) : Prop := {
                  (forall p, In p (w_rd w) ->
                     exists sp, StandsFor l sp (p_el p) /\ connected l (w_id w) root (s_id sp, Some p) /\
                                touches l (w_id w) (s_id sp, Some p)) /\
-                 (w_rd w <> [] -> touches l (w_id w) root)
+                 (w_rd w <> [] -> touches l (w_id w) root);
+  (* geometry of the pins: two pins that a symbol (or two symbols) draw at ONE point belong to one wire — otherwise a net
+     that ends there touches a pin of another wire *)
+  ok_pinpts : forall a b, In a (l_pins l) -> In b (l_pins l) -> a_x a = a_x b -> a_y a = a_y b ->
+                forall w w', In w (c_wires c) -> In w' (c_wires c) -> PinOfWire w (a_pin a) -> PinOfWire w' (a_pin b) -> w = w';
+  (* every net is routed (drawn), and its polyline starts / ends exactly on the pins its ends name *)
+  ok_drawn : forall n, In n (l_nets l) ->
+               (exists a b, n_from n = Some a /\ n_to n = Some b) /\ GeoEnd l (n_src n) (n_from n) /\ GeoEnd l (n_snk n) (n_to n)
 }.
